@@ -757,6 +757,7 @@ func (t *Transition) emitEvents() Result {
 			m.setActiveStates(called, t.TargetStates(), t.IsAuto())
 			// gather new clock values, overwrite fake TimeAfter
 			m.activeStatesMx.Unlock()
+			verifPoint(m, "tx:applied")
 
 			// cache for subscriptions, mind partially accepted auto states
 			if t.IsAuto() {
